@@ -40,8 +40,8 @@ theorem links_documented : links.map (·.2.1) = [0, 1, 2, 3, 4, 5] ∧
     (∀ e ∈ links, e.2.2.2 = (e.2.1 + 3) % 6 ∧ linkVec e.2.2.2 = some (-e.2.2.1.1, -e.2.2.1.2)) :=
   links_ok
 
-/-- the literal iterated by `spinn5_eth_coords` is the lattice basis -/
-theorem eth_triple_documented : ethTriple = [(0, 0), (4, 8), (8, 4)] := ethTriple_eq
+/-- the literal iterated by `spinn5_eth_coords` is the lattice basis (in any order) -/
+theorem eth_triple_documented : ethTriple.Perm [(0, 0), (4, 8), (8, 4)] := ethTriple_perm
 
 /-! ## The tiling of the plane is exact (no table involved in uniqueness) -/
 
@@ -249,7 +249,7 @@ example : ¬ OnBoard (0, 0) (0, 0) (5, 0) ∧ OnBoard (0, 0) (4, -4) (5, 0) := b
 -- a single 8 x 8 board (ragged): every board chip's Ethernet chip is (0,0) without reduction
 example : localEthCoord 7 7 8 8 0 0 = .ok (0, 0) ∧ localEthCoord 4 0 8 8 0 0 = .ok (0, 0) := by decide
 -- eth_coords with a root: the source's un-reduced root_y
-example : ethCoords 24 12 5 30 = [(5, 6), (9, 2), (13, 10), (17, 6), (21, 2), (1, 10)] := by decide +kernel
+example : (ethCoords 24 12 5 30).Perm [(5, 6), (9, 2), (13, 10), (17, 6), (21, 2), (1, 10)] := by decide +kernel
 example : SpecEthCoords (5, 30) 24 12 [(5, 6), (9, 2), (13, 10), (17, 6), (21, 2), (1, 10)] := by decide +kernel
 example : ¬ SpecEthCoords (5, 30) 24 12 [(5, 6), (9, 2), (13, 10), (17, 6), (21, 2)] := by decide +kernel
 example : ¬ SpecEthCoords (5, 30) 24 12 [(5, 6), (9, 2), (13, 10), (17, 6), (21, 2), (1, 10), (0, 0)] := by decide +kernel
